@@ -88,7 +88,7 @@ type ReplayFile struct {
 	Spec                  *RunSpec              `json:"spec,omitempty"`
 	RefSpecs              map[string][]*RunSpec `json:"ref_specs,omitempty"`
 	Pair                  []*RunSpec            `json:"pair,omitempty"`
-	Cli                   *CliFresh             `json:"cli,omitempty"`
+	CliPair               []*CliFresh           `json:"cli_pair,omitempty"`
 	Scenario              *Scenario             `json:"scenario,omitempty"`
 	Observed              *ScenarioOutcome      `json:"observed,omitempty"`
 	Journal               []JLine               `json:"journal,omitempty"`
